@@ -3,4 +3,5 @@ CONSTANTS
   MaxDepth = 0
   MutDepth = 0
   DEV_StaleKeyOnMove = TRUE
+  DEV_EqSeesDerived = FALSE
 INVARIANT InvCurrent
